@@ -1,19 +1,27 @@
 """C18 - geometry values compare, hash, parse and print consistently.
 
-Streams (each: extracted model coq/model/Geometry.v vs the implementation, and the Coq property oracle of
-coq/spec/SpecGeom.v evaluated on what the implementation produced):
+Streams (extracted model coq/model/Geometry.v vs the implementation, and the Coq property oracles of coq/spec/SpecGeom.v
+evaluated on what the implementation produced):
   A  Size.from_string on every string of length <= 4 (quick) / 5 (thorough) over the 15-character alphabet
-     0 1 5 9 . + - e space p x m c t %  plus structured longer strings (long digit runs, leading zeros, every
-     unit, near-misses);  oracle ok_parse.   Strings ending in a newline or containing a non-ASCII digit are
-     outside the statement's alphabet: counted, compared leniently (see design/C18.md).
-  B  str(Size) for sampled non-negative values x 5 units (model printer is exact on the binary64 value);
-     oracle ok_print (two decimals, canonical, within 1/200); re-parse of the printed string reproduces it.
-  C  ==, !=, hash on pairs of geometry values of every kind (Size .. Layout, None, other types), the grid being
-     exhaustive in units / alignments / None-ness and sampled in magnitudes; oracle ok_eq_g.
-  D  Padding.from_xml_attribute (1-5 sizes; TTML order), Point/Stretch.from_xml_attribute; oracles ok_padding, ok_two.
-  E  as_percentage_of / fit_to_screen on every kind: deep snapshot of the receiver before == after (execution only).
+     0 1 5 9 . + - e space p x m c t %  plus structured longer strings (digit runs up to 30, 309 and 400 digits, leading
+     zeros, every unit, near-misses, trailing newlines, non-ASCII digits); oracle ok_parse on EVERY string (no
+     exclusion).  Every accepted string is then printed and re-parsed (parse -> print -> parse): oracle ok_print_stmt.
+  B  str(Size) for non-negative values (grid, every thousandth in [0,1], random, 1e13..1e22, 2^53+-1) x 5 units;
+     oracle ok_print_stmt (<= 2 decimals, unit, within 1/200); re-parse reproduces the printed value.  Model printer:
+     compared by VALUE; a different neighbour on an exact decimal tie and a non-canonical but correct form are counted,
+     not reported.
+  C  ==, !=, hash on pairs of geometry values of every kind (Size .. Layout, None, other types, a subclass instance),
+     exhaustive in units / alignments / None-ness (incl. Padding with omitted parts), sampled in magnitudes, with
+     adjacent binary64 values (nextafter) and sums such as 0.1+0.2 vs 0.3; oracle ok_eq_g.  An unhashable geometry
+     value is a violation.
+  D  Padding.from_xml_attribute: judged where the statement speaks (1-4 strings of the size language separated by
+     single spaces; oracle ok_padding); everything else counted.  Point/Stretch.from_xml_attribute: not in the
+     statement, compared with the model on two well-formed sizes only (disagreement at most).
+  E  as_percentage_of / fit_to_screen on every kind: the receiver's geometric fields before == after, equal receivers
+     give equal results, and the result equals the model's (request 1302 / 1300) - ties the relativize/fit theorems.
 """
 import itertools
+import math
 from fractions import Fraction
 
 import impl
@@ -24,28 +32,31 @@ from pycaption.geometry import Size, Point, Stretch, Padding, Alignment, Layout,
 
 TABLES = ("GenGeom.v",)
 ALPHABET = "0159.+-e pxmct%"
+TINY = Fraction(1, 2**1074)
+
+
+def finite(x):
+    return isinstance(x, int) or (not math.isinf(x) and not math.isnan(x))
 
 
 # ------------------------------------------------------------------------------------------------ A
-def in_alphabet_domain(s):
-    """the statement's strings: no final newline (Python's `$`), no non-ASCII decimal digit (\\d is Unicode)"""
-    return not s.endswith("\n") and all(ord(c) < 128 or not c.isdigit() for c in s) and all(
-        ord(c) < 128 or not c.isspace() for c in s)
-
-
 def obs_parse(s):
+    """Ok([value, unit]) | Err(code) | ("overflow", unit) when the implementation holds inf"""
     r = impl.call(Size.from_string, s)
     if isinstance(r, Ok):
+        if not finite(r.v.value):
+            return ("overflow", geom.UNITS.index(r.v.unit), r.v)
         return Ok([exact(r.v.value), geom.UNITS.index(r.v.unit)])
     return r
 
 
 def structured_strings(rng, n):
-    out = []
-    digs = ["0", "1", "7", "00", "007", "10", "100", "12345678901234567890", "99999", "3", "33", "0" * 30 + "1"]
-    fracs = ["", ".0", ".5", ".50", ".05", ".333333333333333333333", ".", ".x", ".5.5", "..5", ".00", ".999"]
+    out = ["1" + "0" * 309 + "px", "9" * 400 + "%", "1" + "0" * 308 + "em", "0." + "0" * 40 + "1c", "1" + "0" * 320 + ".5pt"]
+    digs = ["0", "1", "7", "00", "007", "10", "100", "12345678901234567890", "99999", "3", "33", "0" * 30 + "1",
+            "9007199254740993", "10000000000000000", "1" + "0" * 22]
+    fracs = ["", ".0", ".5", ".50", ".05", ".333333333333333333333", ".", ".x", ".5.5", "..5", ".00", ".999", ".005", ".125"]
     units = ["px", "em", "%", "c", "pt", "", "PX", "p", "x", "pxx", "ppx", "cm", "mm", "in", "pc", "ptx", "%%", "c ",
-             " px", "px ", "px\n", "px\n\n", "\npx", "em\r", "e", "m", "t", "pt%", "e3px", "cpx", "ptpx"]
+             " px", "px ", "px\n", "px\n\n", "\npx", "em\r", "e", "m", "t", "pt%", "e3px", "cpx", "ptpx", "%\n", "c\n"]
     pre = ["", "", "", "", "+", "-", " ", ".", "0x", "1e", "\n"]
     for _ in range(n):
         r = rng.random()
@@ -58,7 +69,8 @@ def structured_strings(rng, n):
                 + rng.choice(["px", "em", "%", "c", "pt"])
         else:
             s = rng.choice(["٣px", "５%", "1.٣em", "0\n", "0\n\n", "\n0", "0 ", " 0", "00", "0.0", "0px", "0%",
-                            "5px\n", "5\npx", "", "\n", "px", "%", "5 px", "5px 6px", "1,5px", "1_0px", "１２c"])
+                            "5px\n", "5\npx", "", "\n", "px", "%", "5 px", "5px 6px", "1,5px", "1_0px", "１２c",
+                            "5px ", "5 px", "٣", "1e+16px", "infpx", "nanpx", "1E3px"])
         out.append(s)
     return out
 
@@ -71,26 +83,21 @@ def stream_parse(ctx, res):
     strings.extend(structured_strings(ctx.rng, ctx.n(6000, 100000)))
     obs = [obs_parse(s) for s in strings]
     models = oracle_batch([(1800, s) for s in strings])
-    oks = oracle_batch([(1801, [s, o]) for s, o in zip(strings, obs)])
-    outside = 0
-    accepted = 0
+    oks = oracle_batch([(1801, [s, o if not isinstance(o, tuple) else Err(2)]) for s, o in zip(strings, obs)])
+    accepted, overflow = [], 0
     for s, o, m, ok in zip(strings, obs, models, oks):
         res["evaluations"] += 1
         mm = r_result(m, lambda v: [Fraction(v[0][0], v[0][1]), v[1]])
-        if not in_alphabet_domain(s):
-            outside += 1
-            # outside the statement's alphabet. Final newline: the implementation may follow Python's `$`
-            # (accept what the chopped string denotes) or reject; anything else is reported.
-            if s.endswith("\n") and all(ord(c) < 128 for c in s):
-                chopped = oracle_batch([(1801, [s[:-1], o])])[0]
-                if ok != 1 and chopped != 1:
-                    res["violations"].append({"kind": "parse-newline", "replay": "parse", "input": s,
-                                              "what": f"Size.from_string({s!r}) -> {o!r}: neither the syntax error "
-                                                      f"nor the value of the string before the newline",
-                                              "impl_obs": repr(o)})
+        if isinstance(o, tuple):
+            # binary64 overflow: the string is in the size language, the implementation accepts it with value inf
+            overflow += 1
+            res["violations"].append({"kind": "parse-overflow", "shape": "inf", "replay": "parse", "input": s,
+                                      "impl_obs": "inf " + geom.UNIT_NAMES[o[1]],
+                                      "what": f"Size.from_string of a {len(s)}-character decimal number returns the value "
+                                              f"inf (printing it gives {impl.call(str, o[2])!r}, which does not re-parse)"})
             continue
         if isinstance(o, Ok):
-            accepted += 1
+            accepted.append((s, o))
             res["nontrivial"].add(("parse", s))
         if ok != 1:
             res["violations"].append({
@@ -103,19 +110,78 @@ def stream_parse(ctx, res):
     d = res["distribution"]
     d["parse_strings"] = len(strings)
     d["parse_exhaustive_max_len"] = L
-    d["parse_accepted"] = accepted
-    d["parse_outside_alphabet_excluded(final newline / non-ASCII digit or space)"] = outside
+    d["parse_accepted"] = len(accepted)
+    d["parse_binary64_overflow(known finding C18-parse-overflow)"] = overflow
+    d["parse_excluded"] = 0
+    # parse -> print -> parse on every accepted string (values up to 1e30 and down to 1e-21 come from here)
+    sizes = [Size(float(o.v[0]), geom.UNITS[o.v[1]]) for _, o in accepted]
+    check_print(res, sizes, "parse-print-parse", [s for s, _ in accepted])
+    d["parse_print_parse_composed"] = len(sizes)
 
 
 def same_parse(m, o):
     if isinstance(m, Err) or isinstance(o, Err):
         return m == o
     (mv, mu), (ov, ou) = m.v, o.v
-    # float(decimal string) is the nearest binary64 to the exact decimal value the model holds
-    return mu == ou and (mv == ov or (mv != 0 and abs(ov - mv) <= abs(mv) * Fraction(1, 2**52)))
+    # float(decimal string) is the nearest binary64 to the exact decimal value the model holds (or 0 / denormal)
+    return mu == ou and (mv == ov or abs(ov - mv) <= abs(mv) * Fraction(1, 2**52) + TINY)
 
 
 # ------------------------------------------------------------------------------------------------ B
+def parse_printed(p):
+    """printed size -> (Fraction, unit name) or None (independent of the implementation's parser)"""
+    for u in sorted(geom.UNIT_NAMES, key=len, reverse=True):
+        if p.endswith(u):
+            num = p[:-len(u)]
+            parts = num.split(".")
+            if 1 <= len(parts) <= 2 and all(x != "" and all(c in "0123456789" for c in x) for x in parts):
+                return Fraction(num), u
+            return None
+    return None
+
+
+def check_print(res, sizes, stream, origin=None):
+    printed = [impl.call(str, s) for s in sizes]
+    wires = [geom.w_size(s) for s in sizes]
+    models = oracle_batch([(1802, w) for w in wires])
+    oks = oracle_batch([(1813, [w, p.v if isinstance(p, Ok) else ""]) for w, p in zip(wires, printed)])
+    strong = oracle_batch([(1803, [w, p.v if isinstance(p, Ok) else ""]) for w, p in zip(wires, printed)])
+    d = res["distribution"]
+    for i, (s, p, m, ok, st) in enumerate(zip(sizes, printed, models, oks, strong)):
+        res["evaluations"] += 1
+        desc = [repr(s.value), s.unit.value] + ([origin[i]] if origin else [])
+        if isinstance(p, Err) or ok != 1:
+            res["violations"].append({"kind": "print-wrong", "replay": "print", "input": desc[:2], "impl_obs": repr(p),
+                                      "what": f"str(Size({s.value!r}, {s.unit.value})) = {p!r}: not the value rounded "
+                                              f"to two decimals with its unit" + (f" (value parsed from {origin[i]!r})" if origin else "")})
+            continue
+        v = exact(s.value)
+        if v * 100 % 1 != 0:
+            res["nontrivial"].add((stream, s.value, s.unit.value))
+        if st != 1:
+            d["print_correct_but_not_canonical(information)"] = d.get("print_correct_but_not_canonical(information)", 0) + 1
+        if p.v != m:
+            pv, mv = parse_printed(p.v), parse_printed(m)
+            if pv is not None and pv == mv:
+                d["print_same_value_other_form_than_model(information)"] = d.get("print_same_value_other_form_than_model(information)", 0) + 1
+            elif pv is not None and mv is not None and pv[1] == mv[1] and (v * 100) % 1 == Fraction(1, 2) \
+                    and abs(pv[0] - mv[0]) == Fraction(1, 100):
+                # exact decimal tie: DESIGN 7.0 x allows either neighbour
+                d["print_other_neighbour_on_exact_tie(information)"] = d.get("print_other_neighbour_on_exact_tie(information)", 0) + 1
+            else:
+                res["disagreements"].append({"stream": stream, "input": desc, "impl": p.v, "model": m})
+        # re-parsing a printed value reproduces it: same unit, value within 1/200 (+ the binary64 error of float(printed)),
+        # and it prints to the same string again
+        b = impl.call(Size.from_string, p.v)
+        res["evaluations"] += 1
+        good = isinstance(b, Ok) and b.v.unit == s.unit and finite(b.v.value) \
+            and abs(exact(b.v.value) - v) <= Fraction(1, 200) + Fraction(1, 10**9) + abs(v) / 2**52 and str(b.v) == p.v
+        if not good:
+            res["violations"].append({"kind": "print-reparse", "replay": "print", "input": desc[:2], "impl_obs": repr(b),
+                                      "what": f"Size.from_string(str(Size({s.value!r}, {s.unit.value}))) = from_string({p.v!r}) "
+                                              f"-> {b!r}: does not reproduce the printed value"})
+
+
 def stream_print(ctx, res):
     rng = ctx.rng
     vals = []
@@ -124,37 +190,15 @@ def stream_print(ctx, res):
             vals.append((v, u))
     for h in range(0, 1001):          # every thousandth around the rounding boundaries 0.000 .. 1.000
         vals.append((h / 1000.0, rng.randrange(5)))
+    big = [1e13, 1e15, 1e16, 1.5e16, 1e17, 1e21, 1e22, 9.999999999999999e22, 2.0**53, 2.0**53 - 1, 2.0**53 + 2, 123456789012345.67,
+           4503599627370496.5, 1e13 + 0.005, 99999999999999.99, 1e300]
+    for v in big:
+        vals.append((v, rng.randrange(5)))
     for _ in range(ctx.n(6000, 200000)):
         vals.append(geom.rand_size(rng))
-    sizes = [geom.mk_size(v) for v in vals]
-    printed = [impl.call(str, s) for s in sizes]
-    models = oracle_batch([(1802, geom.w_size(s)) for s in sizes])
-    oks = oracle_batch([(1803, [geom.w_size(s), p.v if isinstance(p, Ok) else ""]) for s, p in zip(sizes, printed)])
-    reparse = []
-    for s, p, m, ok in zip(sizes, printed, models, oks):
-        res["evaluations"] += 1
-        desc = [repr(s.value), s.unit.value]
-        if isinstance(p, Err) or ok != 1:
-            res["violations"].append({"kind": "print-wrong", "replay": "print", "input": desc, "impl_obs": repr(p),
-                                      "what": f"str(Size({s.value!r}, {s.unit.value})) = {p!r}: not the value rounded "
-                                              f"to two decimals in canonical form"})
-            continue
-        if exact(s.value) * 100 % 1 != 0:
-            res["nontrivial"].add(("print", s.value, s.unit.value))
-        if p.v != m:
-            res["disagreements"].append({"stream": "print", "input": desc, "impl": p.v, "model": m})
-        reparse.append((s, p.v))
-    # re-parsing a printed value reproduces it: same unit, value within 1/200, and it prints to the same string
-    back = [impl.call(Size.from_string, p) for _, p in reparse]
-    for (s, p), b in zip(reparse, back):
-        res["evaluations"] += 1
-        # float(printed) is the binary64 nearest to the printed decimal: relative error 2^-53 on top of the 1/200
-        good = isinstance(b, Ok) and b.v.unit == s.unit and abs(exact(b.v.value) - exact(s.value)) <= Fraction(1, 200) \
-            + Fraction(1, 10**9) + abs(exact(s.value)) / 2**52 and str(b.v) == p
-        if not good:
-            res["violations"].append({"kind": "print-reparse", "replay": "print", "input": [repr(s.value), s.unit.value],
-                                      "impl_obs": repr(b), "what": f"Size.from_string(str(Size({s.value!r}, "
-                                      f"{s.unit.value}))) = from_string({p!r}) -> {b!r}: does not reproduce the printed value"})
+    for _ in range(ctx.n(300, 10000)):
+        vals.append((rng.random() * 10 ** rng.randint(12, 23), rng.randrange(5)))
+    check_print(res, [geom.mk_size(v) for v in vals], "print")
     res["distribution"]["print_values"] = len(vals)
 
 
@@ -162,10 +206,14 @@ def stream_print(ctx, res):
 KINDS = ["other", "size", "point", "stretch", "padding", "alignment", "layout"]
 
 
+class SubSize(Size):
+    """a subclass instance: `type(self) == type(other)` makes it a value of another kind"""
+
+
 def grid_values(rng, nmag):
     """abstract tagged values: exhaustive in units / alignments / None-ness, sampled in magnitudes"""
-    mags = [0, 1, 1.0, 0.5, 10, 33.33, 100] + [geom.rand_value(rng) for _ in range(nmag)]
-    vals = [("other", None), ("other", 0), ("other", "10px"), ("other", (1, 0))]
+    mags = [0, 1, 1.0, 0.5, 10, 33.33, 100, 0.1 + 0.2, 0.3, 1e16, 1e16 + 2] + [geom.rand_value(rng) for _ in range(nmag)]
+    vals = [("other", None), ("other", 0), ("other", "10px"), ("other", (1, 0)), ("other", "subsize")]
     sizes = [(m, u) for u in range(5) for m in mags]
     vals += [("size", s) for s in sizes]
     pick = lambda: rng.choice(sizes)  # noqa: E731
@@ -177,6 +225,8 @@ def grid_values(rng, nmag):
                 vals.append(("stretch", (a, b)))
     for _ in range(40):
         vals.append(("padding", (pick(), pick(), pick(), pick())))
+    for mask in range(15):                 # Padding(...) with omitted parts (they default to 0%)
+        vals.append(("padding", tuple(pick() if mask & (1 << i) else None for i in range(4))))
     aligns = [(h, v) for h in [None, 0, 1, 2, 3, 4] for v in [None, 0, 1, 2]]
     vals += [("alignment", a) for a in aligns]
     # layouts: every None-ness pattern of the four parts x a few fillings x webvtt strings
@@ -194,7 +244,7 @@ def grid_values(rng, nmag):
 def build_val(v):
     k, x = v
     if k == "other":
-        return x
+        return SubSize(1, UnitEnum.PIXEL) if x == "subsize" else x
     return {"size": geom.mk_size, "point": geom.mk_point, "stretch": geom.mk_stretch, "padding": geom.mk_padding,
             "alignment": geom.mk_align, "layout": geom.mk_layout}[k](x)
 
@@ -209,15 +259,23 @@ def wire_val(v):
 
 
 def perturb(rng, v):
-    """a value of the same kind differing in at most one component (so that near-equal pairs are frequent)"""
+    """a value of the same kind differing in at most one component (so that near-equal pairs are frequent):
+    another unit, +1, +0.01, +1e-9, the ADJACENT binary64 value, one relative ulp"""
     k, x = v
     def ps(s):  # noqa: E306
+        if s is None:
+            return rng.choice([None, (0, 2), (0.0, 2), (0, 0)])
         r = rng.random()
-        if r < 0.4:
+        if r < 0.3:
             return s
-        if r < 0.7:
+        if r < 0.5:
             return (s[0], (s[1] + 1) % 5)
-        return (s[0] + rng.choice([1, 0.01, 1e-9]), s[1])
+        f = float(geom.num(s[0]))
+        if r < 0.7:
+            return (f + rng.choice([1, 0.01, 1e-9]), s[1])
+        if r < 0.9:
+            return (math.nextafter(f, rng.choice([math.inf, 0.0])), s[1])
+        return (f * (1 + 2.0**-52) if f else 5e-324, s[1])
     if k == "other":
         return v
     if k == "size":
@@ -231,32 +289,41 @@ def perturb(rng, v):
     if k == "alignment":
         return (k, rng.choice([x, (x[0], rng.choice([None, 0, 1, 2])), (rng.choice([None, 0, 1, 2, 3, 4]), x[1])]))
     o, e, p, a, w = x
-    i = rng.randrange(6)
+    i = rng.randrange(7)
+    j = rng.randrange(2)
     if i == 0 and o:
-        o = (ps(o[0]), o[1])
+        o = tuple(ps(s) if n == j else s for n, s in enumerate(o))
     elif i == 1 and e:
-        e = (e[0], ps(e[1]))
+        e = tuple(ps(s) if n == j else s for n, s in enumerate(e))
     elif i == 2 and p:
-        p = (p[0], p[1], ps(p[2]), p[3])
+        q = rng.randrange(4)
+        p = tuple(ps(s) if n == q else s for n, s in enumerate(p))
     elif i == 3:
         a = rng.choice([a, None, (0, 0)])
     elif i == 4:
         w = rng.choice([None, "", "position:1%"])
     elif i == 5:
         o = None if o else o
+    elif i == 6:
+        e, p = (None if e else e), (None if rng.random() < 0.5 else p)
     return (k, (o, e, p, a, w))
 
 
-def obs_eq(a, b):
+def obs_eq(a, b, ka, kb):
+    """(eq, ne, hash-eq) | "raises" | "unhashable" """
     e = impl.call(lambda: bool(a == b))
     n = impl.call(lambda: bool(a != b))
     if isinstance(e, Err) or isinstance(n, Err):
-        return None
-    try:
-        h = hash(a) == hash(b)
-    except TypeError:
-        h = True
-    return e.v, n.v, h
+        return "raises"
+    hs = []
+    for x, k in ((a, ka), (b, kb)):
+        try:
+            hs.append(hash(x))
+        except TypeError:
+            if k != "other":
+                return "unhashable"
+            hs.append(None)
+    return e.v, n.v, (hs[0] == hs[1]) if None not in hs else True
 
 
 def stream_eq(ctx, res):
@@ -275,22 +342,25 @@ def stream_eq(ctx, res):
     reqs_m, reqs_ok = [], []
     for a, b in pairs:
         oa, ob = build_val(a), build_val(b)
-        o = obs_eq(oa, ob)
+        o = obs_eq(oa, ob, a[0], b[0])
         obs.append(o)
         wa, wb = wire_val(a), wire_val(b)
         reqs_m.append((1808, [wa, wb]))
-        reqs_ok.append((1809, [wa, wb] + list(o if o else (False, False, False))))
+        reqs_ok.append((1809, [wa, wb] + list(o if isinstance(o, tuple) else (False, False, False))))
     models = oracle_batch(reqs_m)
     oks = oracle_batch(reqs_ok)
     kinds = {}
+    adjacent = 0
     for (a, b), o, m, ok in zip(pairs, obs, models, oks):
         res["evaluations"] += 1
         kinds[a[0] + "/" + b[0]] = kinds.get(a[0] + "/" + b[0], 0) + 1
         if a[0] == "other" and b[0] == "other":
             continue
-        if o is None or ok != 1:
-            if o is None:
+        if not isinstance(o, tuple) or ok != 1:
+            if o == "raises":
                 kind, what = "eq-raises", "== or != raised"
+            elif o == "unhashable":
+                kind, what = "eq-unhashable", "hash() of a geometry value raised TypeError (equal values cannot have equal hashes)"
             elif o[0] and not o[2]:
                 kind, what = "eq-hash", "equal values with different hashes"
             elif o[1] == o[0]:
@@ -302,11 +372,16 @@ def stream_eq(ctx, res):
             continue
         if a != b and a[0] == b[0]:
             res["nontrivial"].add(("eq", repr(a), repr(b)))
+            if a[0] == "size" and a[1][1] == b[1][1] and a[1][0] != b[1][0] \
+                    and abs(exact(float(geom.num(a[1][0]))) - exact(float(geom.num(b[1][0])))) <= abs(exact(float(geom.num(a[1][0])))) / 2**51:
+                adjacent += 1
         if bool(m) != o[0]:
             res["disagreements"].append({"stream": "eq", "input": [a, b], "impl": o, "model": m})
     res["distribution"]["eq_pairs"] = len(pairs)
     res["distribution"]["eq_grid_values"] = len(vals)
+    res["distribution"]["eq_size_pairs_within_2_ulp"] = adjacent
     res["distribution"]["eq_pair_kinds"] = kinds
+    res["distribution"]["eq_excluded"] = "negative, -0.0, inf and NaN magnitudes (statement: non-negative magnitudes): not generated"
 
 
 # ------------------------------------------------------------------------------------------------ D
@@ -338,47 +413,45 @@ def stream_attr(ctx, res):
         pool = good if rng.random() < 0.75 else toks
         sep = " " if rng.random() < 0.9 else rng.choice(["  ", "\t", ",", " \n"])
         cases.append(sep.join(rng.choice(pool) for _ in range(k)))
-    obs = [obs_padding(s) for s in cases]
-    models = oracle_batch([(1806, s) for s in cases])
-    oks = oracle_batch([(1807, [s, o]) for s, o in zip(cases, obs)])
+    judged = oracle_batch([(1812, s) for s in cases])
+    cases_j = [s for s, j in zip(cases, judged) if j == 1]
+    obs = [obs_padding(s) for s in cases_j]
+    models = oracle_batch([(1806, s) for s in cases_j])
+    oks = oracle_batch([(1807, [s, o]) for s, o in zip(cases_j, obs)])
     ar = {}
-    for s, o, m, ok in zip(cases, obs, models, oks):
+    for s, o, m, ok in zip(cases_j, obs, models, oks):
         res["evaluations"] += 1
-        if not in_alphabet_domain(s) or any(not in_alphabet_domain(t) for t in s.split(" ")):
-            continue
         n = len(s.split(" "))
         ar[n] = ar.get(n, 0) + 1
         if ok != 1:
             res["violations"].append({"kind": "padding-order", "replay": "padding", "input": s, "impl_obs": repr(o),
                                       "what": f"Padding.from_xml_attribute({s!r}) -> {o!r}: not the TTML expansion "
-                                              f"(before, end, after, start) / wrong error"})
+                                              f"(before, end, after, start) of its {n} size(s)"})
             continue
-        if isinstance(o, Ok):
-            res["nontrivial"].add(("padding", s))
+        res["nontrivial"].add(("padding", s))
         mm = r_result(m, lambda v: [[Fraction(x[0][0], x[0][1]), x[1]] for x in v])
         if not same_sizes(mm, o):
             res["disagreements"].append({"stream": "padding", "input": s, "impl": repr(o), "model": repr(mm)})
-    res["distribution"]["padding_arity_histogram"] = ar
-    # Point / Stretch attributes
+    res["distribution"]["padding_judged_arity_histogram"] = ar
+    res["distribution"]["padding_attributes_outside_the_statement(other separators, 0 or >4 sizes, malformed sizes: counted, not judged)"] = \
+        len(cases) - len(cases_j)
+    # Point / Stretch attributes: not in the statement; compared with the model on two well-formed sizes only
     cases2 = []
     for _ in range(ctx.n(2000, 40000)):
         k = rng.choice([2, 2, 2, 2, 1, 3, 0])
         pool = good if rng.random() < 0.75 else toks
         cases2.append((rng.choice([Point, Stretch]), " ".join(rng.choice(pool) for _ in range(k))))
-    obs = [obs_two(c, s) for c, s in cases2]
-    models = oracle_batch([(1810, s) for _, s in cases2])
-    oks = oracle_batch([(1811, [s, o]) for (_, s), o in zip(cases2, obs)])
-    for (c, s), o, m, ok in zip(cases2, obs, models, oks):
+    judged = oracle_batch([(1814, s) for _, s in cases2])
+    cases2_j = [c for c, j in zip(cases2, judged) if j == 1]
+    obs = [obs_two(c, s) for c, s in cases2_j]
+    models = oracle_batch([(1810, s) for _, s in cases2_j])
+    for (c, s), o, m in zip(cases2_j, obs, models):
         res["evaluations"] += 1
-        if ok != 1:
-            res["violations"].append({"kind": "two-sizes", "replay": "two", "input": [c.__name__, s], "impl_obs": repr(o),
-                                      "what": f"{c.__name__}.from_xml_attribute({s!r}) -> {o!r}"})
-            continue
-        if isinstance(o, Ok):
-            res["nontrivial"].add(("two", c.__name__, s))
         mm = r_result(m, lambda v: [[Fraction(x[0][0], x[0][1]), x[1]] for x in v])
         if not same_sizes(mm, o):
             res["disagreements"].append({"stream": "two", "input": [c.__name__, s], "impl": repr(o), "model": repr(mm)})
+    res["distribution"]["point_stretch_attributes_compared_with_the_model"] = len(cases2_j)
+    res["distribution"]["point_stretch_attributes_not_two_wellformed_sizes(counted)"] = len(cases2) - len(cases2_j)
 
 
 def same_sizes(m, o):
@@ -389,21 +462,39 @@ def same_sizes(m, o):
 
 # ------------------------------------------------------------------------------------------------ E
 DIMS = [(640, 360), (1920, 1080), (None, 360), (640, None), (None, None), (3, 7), (0, 0), (1280.5, 720)]
+REL = Fraction(1, 10**9)
+
+
+def close_plain(a, b):
+    """plain layouts (exact rationals): equal up to 1e-9 relative on the values, alignment equal"""
+    for i in range(3):
+        if (a[i] is None) != (b[i] is None):
+            return False
+        if a[i] is not None:
+            for sa, sb in zip(a[i], b[i]):
+                if sa[1] != sb[1] or abs(sa[0] - sb[0]) > REL * max(1, abs(sb[0])):
+                    return False
+    return a[3] == b[3]
 
 
 def stream_fresh(ctx, res):
-    """relativizing / fitting leaves the receiver (and everything reachable from it) untouched; two equal
-    receivers give equal results (the result is a function of the value)"""
+    """relativizing / fitting leaves the receiver's geometric fields (and everything reachable from them) untouched;
+    two equal receivers give equal results (the result is a function of the value); the result is the model's"""
     rng = ctx.rng
     n_changed = 0
+    n_model = 0
+    pending = []
+    oq = lambda x: None if x is None else Some(exact(x))  # noqa: E731
     for i in range(ctx.n(4000, 100000)):
         kind = rng.choice(["size", "point", "stretch", "padding", "layout", "layout", "layout"])
         w, h = rng.choice(DIMS)
+        model_req = []
         if kind == "size":
             x = geom.rand_size(rng, wild=False)
             obj, twin = geom.mk_size(x), geom.mk_size(x)
             ax = rng.random() < 0.5
             ops = [lambda o: o.as_percentage_of(video_width=w if ax else None, video_height=None if ax else h)]
+            model_req = [(1300, [geom.w_size(obj), oq(w if ax else None), oq(None if ax else h)])]
         elif kind in ("point", "stretch"):
             x = (geom.rand_size(rng, wild=False), geom.rand_size(rng, wild=False))
             mk = geom.mk_point if kind == "point" else geom.mk_stretch
@@ -418,15 +509,18 @@ def stream_fresh(ctx, res):
             x = geom.rand_layout(rng, units=units, webvtt=True, wild=False)
             obj, twin = geom.mk_layout(x), geom.mk_layout(x)
             ops = [lambda o: o.as_percentage_of(w, h), lambda o: o.fit_to_screen()]
-        for op in ops:
-            before = geom.snap(obj)
+            wl = geom.w_layout(obj)
+            model_req = [(1302, [True, False, oq(w), oq(h), wl]), (1302, [False, True, None, None, wl])]
+        reqs = model_req if model_req else [None] * len(ops)
+        for op, rq in zip(ops, reqs):
+            before = geom.value_snap(obj)
             r = impl.call(op, obj)
-            after = geom.snap(obj)
+            after = geom.value_snap(obj)
             r2 = impl.call(op, twin)
             res["evaluations"] += 1
             same = (isinstance(r, Err) and r == r2) or (isinstance(r, Ok) and isinstance(r2, Ok)
-                                                        and geom.snap(r.v) == geom.snap(r2.v))
-            if isinstance(r, Ok) and geom.snap(r.v) != before:
+                                                        and geom.value_snap(r.v) == geom.value_snap(r2.v))
+            if isinstance(r, Ok) and geom.value_snap(r.v) != before:
                 n_changed += 1
                 res["nontrivial"].add(("fresh", kind, repr(x), w, h))
             if before != after or not same:
@@ -436,7 +530,26 @@ def stream_fresh(ctx, res):
                     "what": f"{kind} {x!r} as_percentage_of/fit_to_screen (video {w}x{h}): "
                             + ("the receiver was modified" if before != after else "equal receivers gave different results"),
                     "impl_obs": [repr(before), repr(after)]})
+                continue
+            if rq is not None:
+                if kind == "size":
+                    o = Ok((exact(r.v.value), geom.UNITS.index(r.v.unit))) if isinstance(r, Ok) else r
+                else:
+                    o = Ok(geom.p_layout(r.v)) if isinstance(r, Ok) else r
+                pending.append((rq, kind, o, [kind, x, w, h]))
+    for (rq, kind, o, inp), m in zip(pending, oracle_batch([p[0] for p in pending])):
+        n_model += 1
+        if kind == "size":
+            mm = r_result(m, geom.r_size)
+            good = (isinstance(o, Err) and o == mm) or (isinstance(o, Ok) and isinstance(mm, Ok) and o.v[1] == mm.v[1]
+                                                        and abs(o.v[0] - mm.v[0]) <= REL * max(1, abs(mm.v[0])))
+        else:
+            mm = r_result(m, geom.r_layout)
+            good = (isinstance(o, Err) and o == mm) or (isinstance(o, Ok) and isinstance(mm, Ok) and close_plain(o.v, mm.v))
+        if not good:
+            res["disagreements"].append({"stream": "fresh", "input": inp, "impl": repr(o)[:300], "model": repr(mm)[:300]})
     res["distribution"]["fresh_results_differing_from_receiver"] = n_changed
+    res["distribution"]["fresh_results_compared_with_the_model"] = n_model
 
 
 # ------------------------------------------------------------------------------------------------
@@ -448,26 +561,25 @@ def run(ctx):
     stream_eq(ctx, res)
     stream_attr(ctx, res)
     stream_fresh(ctx, res)
-    res["rule"] = ("parse: exhaustive short strings over the alphabet %r + structured long strings, non-trivial = accepted; "
-                   "print: value grid + random non-negative binary64 values x 5 units, non-trivial = not a multiple of "
-                   "0.01; eq: pairs over a grid exhaustive in units/alignments/None-ness, non-trivial = distinct values "
-                   "of the same kind; padding/point/stretch attributes: non-trivial = accepted; transformations: "
-                   "non-trivial = result differs from receiver. Distinct inputs counted." % ALPHABET)
-    res["samples"] = [{"parse": "12.5%"}, {"print": [2.675, "px"]}, {"eq": "Layout(origin=(10%,10%)) vs Layout(origin=(10%,10px))"},
+    res["rule"] = ("parse: exhaustive short strings over the alphabet %r + structured long strings (no exclusion), non-trivial = "
+                   "accepted; print: value grid + random non-negative binary64 values up to 1e23 x 5 units and every value "
+                   "parsed in stream A, non-trivial = not a multiple of 0.01; eq: pairs over a grid exhaustive in units/alignments/"
+                   "None-ness with adjacent binary64 values, non-trivial = distinct values of the same kind; padding attributes: "
+                   "non-trivial = judged (1-4 well-formed sizes, single spaces); transformations: non-trivial = result differs "
+                   "from receiver. Distinct inputs counted." % ALPHABET)
+    res["samples"] = [{"parse": "12.5%"}, {"print": [2.675, "px"]}, {"eq": "Size(1.0,px) vs Size(nextafter(1.0),px)"},
                       {"padding": "1px 2px 3px 4px"}]
     res["clauses"] = {
-        "theorem": ["== is component-wise (all six kinds), reflexive/symmetric/transitive",
-                    "equal values have equal hashes for every hash function on floats/enums/None/ints",
-                    "Size.from_string accepts exactly the size language (all strings) and returns the denoted value",
-                    "printing: within 1/200, canonical two-decimal form; parse(print(a)) = round2(a); print o parse o print = print",
+        "theorem": ["== is component-wise = identity of normal forms (all six kinds), reflexive/symmetric/transitive",
+                    "equal values have equal hashes for every hash function of the numeric value / enum member / None / int",
+                    "Size.from_string accepts exactly the size language (ALL strings) and returns the denoted value; else the syntax error",
+                    "printing: within 1/200, <= 2 decimals (canonical form: information); parse(print(a)) = round2(a); print o parse o print = print",
                     "padding shorthand expands in TTML order",
-                    "relativize / fit keep the components they do not recompute; relative layouts are fixed points"],
+                    "relativize / fit keep the components they do not recompute (definitional lemmas about the model)"],
         "correspondence_only": ["the regex engine / float() / round() / f-string formatting behind from_string and __str__",
-                                "receiver not modified by as_percentage_of / fit_to_screen (deep snapshot, execution)",
-                                "CPython hash() on floats, enum members, None (abstract in the theorem)",
-                                "cross-type and None operands of == (`other and type(self) == type(other)`)"]}
-    res["notes"].append("strings with a final newline (Python `$`) or non-ASCII digits are outside the statement's "
-                        "alphabet; counted in distribution and compared leniently")
+                                "binary64: values beyond 1.8e308 become inf (known finding C18-parse-overflow); NaN / negative values not generated",
+                                "receiver not modified by as_percentage_of / fit_to_screen (snapshot of the geometric fields, execution)",
+                                "CPython hash() on floats, enum members, None; that every geometry value is hashable"]}
     return res
 
 
@@ -477,17 +589,17 @@ def replay(ctx, rec):
     if tag == "parse":
         s = rec["input"]
         o = obs_parse(s)
+        if isinstance(o, tuple):
+            return rec.get("kind") == "parse-overflow", "inf"
         ok = oracle1(1801, [s, o])
-        if s.endswith("\n"):
-            ok = 1 if ok == 1 or oracle1(1801, [s[:-1], o]) == 1 else 0
         return ok != 1, repr(o)
     if tag == "print":
-        v, u = rec["input"]
+        v, u = rec["input"][:2]
         s = Size(float(v), UnitEnum(u))
         p = impl.call(str, s)
         if isinstance(p, Err):
             return True, repr(p)
-        ok = oracle1(1803, [geom.w_size(s), p.v])
+        ok = oracle1(1813, [geom.w_size(s), p.v])
         b = impl.call(Size.from_string, p.v)
         good = isinstance(b, Ok) and b.v.unit == s.unit and str(b.v) == p.v
         return ok != 1 or not good, [p.v, repr(b)]
@@ -498,18 +610,14 @@ def replay(ctx, rec):
                 return tuple(t(z) for z in y) if isinstance(y, list) else y
             return (k, t(x))
         a, b = fix(rec["input"][0]), fix(rec["input"][1])
-        o = obs_eq(build_val(a), build_val(b))
-        if o is None:
-            return True, "raised"
+        o = obs_eq(build_val(a), build_val(b), a[0], b[0])
+        if not isinstance(o, tuple):
+            return True, o
         ok = oracle1(1809, [wire_val(a), wire_val(b)] + list(o))
         return ok != 1, o
     if tag == "padding":
         o = obs_padding(rec["input"])
         return oracle1(1807, [rec["input"], o]) != 1, repr(o)
-    if tag == "two":
-        c, s = rec["input"]
-        o = obs_two(Point if c == "Point" else Stretch, s)
-        return oracle1(1811, [s, o]) != 1, repr(o)
     if tag == "fresh":
         from fractions import Fraction as F
 
@@ -533,12 +641,12 @@ def replay(ctx, rec):
             else:
                 ops = [lambda o: o.as_percentage_of(w, h)]
             for op in ops:
-                before = geom.snap(obj)
+                before = geom.value_snap(obj)
                 r = impl.call(op, obj)
                 r2 = impl.call(op, twin)
                 same = (isinstance(r, Err) and r == r2) or (isinstance(r, Ok) and isinstance(r2, Ok)
-                                                            and geom.snap(r.v) == geom.snap(r2.v))
-                if geom.snap(obj) != before or not same:
-                    bad.append(repr(before) + " -> " + repr(geom.snap(obj)))
+                                                            and geom.value_snap(r.v) == geom.value_snap(r2.v))
+                if geom.value_snap(obj) != before or not same:
+                    bad.append(repr(before) + " -> " + repr(geom.value_snap(obj)))
         return bool(bad), bad[:2]
     return False, "unknown replay tag"
